@@ -416,3 +416,26 @@ def nondeterminism_taint(ctx, rule='C09-R5'):
                     ctx.violation(rule, q, e.node, e.loc(), 'ref_dt / geoloc metadata steers the computation',
                                   instance=f'{q}: branch on metadata')
     ctx.floor(rule, 'events carrying clock values (run / demo)', n_src, 3)
+
+
+def no_uninitialised_memory(ctx, rule='C09-R7'):
+    """np.empty / np.empty_like hand out memory as the allocator left it: whatever is not overwritten afterwards holds the
+    content of the buffer released last - values that depend on what was processed before in the same process.  None is
+    allocated on the processing path (an output buffer is np.full / np.zeros / np.full_like with an explicit fill)."""
+    fx = effects(ctx)
+    p = ctx.project
+    funcs = fx.reachable(fx.processing_entries())
+    UNINIT = {'numpy.empty', 'numpy.empty_like', 'numpy.ndarray', 'numpy.ma.empty', 'numpy.ma.empty_like',
+              'numpy.lib.stride_tricks.as_strided'}
+    n = 0
+    for q in sorted(funcs):
+        for e in fx.own_events(q):
+            if e.kind != 'call':
+                continue
+            n += 1
+            head = call_head(e) or ''
+            ctx.check(head not in UNINIT, rule, q, e.node, e.loc(),
+                      f'{head} allocates without initialising: the elements nothing writes afterwards (rows no mask selects, '
+                      'NaN inputs that fail every comparison) keep what the last freed buffer of that size held - the result '
+                      'depends on what ran before', instance=f'{q}: no uninitialised buffer ({head})') if head in UNINIT else None
+    ctx.floor(rule, 'calls on the processing path scanned for uninitialised allocations', n, 200)
